@@ -193,7 +193,8 @@ Inductive uresult :=
 
 Definition all_ascii (s : pystr) : bool := forallb (fun c => c <? 128) s.
 
-Definition urlparse (url0 : pystr) : uresult :=
+(* urllib.parse.urlsplit: scheme, netloc, path *)
+Definition urlsplit (url0 : pystr) : uresult :=
   let url := remove_unsafe (lstrip_c0 url0) in
   let '(scheme, url) := split_scheme url in
   let '(netloc, url) := if startswith url [slash; slash] then span_netloc (skipn 2 url) else ([], url) in
@@ -204,11 +205,19 @@ Definition urlparse (url0 : pystr) : uresult :=
   else
     let url := fst (split1 35 url) in
     let url := fst (split1 63 url) in
-    let url := if mem_str scheme uses_params && contains_char 59 url then split_params url else url in
     UOk {| u_scheme := scheme; u_netloc := netloc; u_path := url |}.
 
-Definition urlparse_path (url : pystr) : option pystr :=
-  match urlparse url with UOk u => Some (u_path u) | _ => None end.
+(* urllib.parse.urlparse: urlsplit, then ";params" of the last segment are cut off the path *)
+Definition urlparse (url0 : pystr) : uresult :=
+  match urlsplit url0 with
+  | UOk u => UOk {| u_scheme := u_scheme u; u_netloc := u_netloc u;
+                    u_path := if mem_str (u_scheme u) uses_params && contains_char 59 (u_path u)
+                              then split_params (u_path u) else u_path u |}
+  | r => r
+  end.
+
+Definition urlsplit_path (url : pystr) : option pystr :=
+  match urlsplit url with UOk u => Some (u_path u) | _ => None end.
 
 (* ------------------------------------------------------------------ 2a. emission *)
 (* xmlutils.make_href (hand model; Gen/UrlGen.v is regenerated from the source and proved equal) *)
@@ -300,9 +309,10 @@ Inductive dres :=
 Definition strip_base (base p : pystr) : dres :=
   if under_prefix base p then DOk (drop_prefix base p) else DSkip.
 
-(* report.py xml_report: urlparse(href).path -> unquote -> sanitize_path -> strip base prefix *)
+(* report.py xml_report: urlsplit(href).path -> unquote -> sanitize_path -> strip base prefix
+   (fixed code; before fix C18-urlsplit it was urlparse, which cuts ";params" off the last segment) *)
 Definition decode_multiget (base href : pystr) : dres :=
-  match urlparse href with
+  match urlsplit href with
   | UOk u => strip_base base (sanitize_path (unquote (u_path u)))
   | UValueError => DRaise
   | UOutside => DOutside
@@ -324,10 +334,18 @@ Definition url_port (netloc : pystr) : option (option N) :=
                  else None
   end.
 
-(* move.py do_MOVE (fixed code: the path is percent-decoded like everywhere else).
+(* the multiget decoding before fix C18-urlsplit *)
+Definition decode_multiget_legacy (base href : pystr) : dres :=
+  match urlparse href with
+  | UOk u => strip_base base (sanitize_path (unquote (u_path u)))
+  | UValueError => DRaise
+  | UOutside => DOutside
+  end.
+
+(* move.py do_MOVE (fixed code: urlsplit, and the path is percent-decoded like everywhere else).
    server_netloc = get_server_netloc(environ, force_port=True) *)
 Definition decode_destination (server_netloc base dest : pystr) : dres :=
-  match urlparse dest with
+  match urlsplit dest with
   | UValueError => DRaise
   | UOutside => DOutside
   | UOk u =>
@@ -343,7 +361,7 @@ Definition decode_destination (server_netloc base dest : pystr) : dres :=
       end
   end.
 
-(* do_MOVE before fix C18-move-unquote (kept for the regression witness F5) *)
+(* do_MOVE before the fixes C18-move-unquote and C18-urlsplit (kept for the regression witnesses) *)
 Definition decode_destination_legacy (server_netloc base dest : pystr) : dres :=
   match urlparse dest with
   | UValueError => DRaise
